@@ -283,8 +283,8 @@ def _too_big(x):
 
 
 def make_guarded_pop(orig):
-    def pop(iterable_object, count, ctx):
-        r = orig(iterable_object, count, ctx)
+    def pop(iterable_object, count, *a, **k):  # transparent apart from the size check on what comes back
+        r = orig(iterable_object, count, *a, **k)
         if count == 1:
             if _too_big(r):
                 raise ValueTooBig()
